@@ -13,12 +13,12 @@ import (
 // burst of elements is put and exactly that many consumer returns must follow. A watchdog
 // that fires is conclusive only in the lost-wake-up constellation (see diagnoseStall).
 func wakeCase(c *vlib.Ctx, kind int, i int, r *vlib.Rand) {
-	section := "wake-" + []string{"rq", "dq"}[kind]
+	section := secName("wake-", kind)
 	if skipAbandoned(c, section, i) {
 		return
 	}
 	if tooManyStalls() {
-		c.Inconclusive(fmt.Sprintf("wake-%s#%d", map[int]string{0: "rq", 1: "dq"}[kind], i), "skipped: blocking-Get case after three stalls in this process")
+		c.Inconclusive(fmt.Sprintf("%s#%d", section, i), "skipped: blocking-Get case after three stalls in this process")
 		return
 	}
 	C := r.Range(1, 8)
@@ -54,7 +54,7 @@ func wakeCase(c *vlib.Ctx, kind int, i int, r *vlib.Rand) {
 		}()
 	}
 	parked := waitParked(q.parkFrame(), base, C)
-	caseID := fmt.Sprintf("wake-%s#%d", map[int]string{0: "rq", 1: "dq"}[kind], i)
+	caseID := fmt.Sprintf("%s#%d", secName("wake-", kind), i)
 	var log []string
 	params := map[string]interface{}{"type": T, "consumers": C, "capacity": caps[:lanes], "parked_before_first_put": parked}
 	stalled := func(phase string) {
